@@ -99,6 +99,12 @@ def main():
             if any("sparse table row not supplied" in f["description"] or "spec table not supplied" in f["description"] for f in r.failed_checks):
                 inconclusive.append(f"{h.name}: a table row outside the supplied set was requested")
                 continue
+            real = [f for f in r.failed_checks if f["status"] == "FAILURE"]
+            own = [f for f in real if "/repo/" not in f["location"] and "repo/src" not in f["location"]
+                   and ("attempt to" in f["description"] or "index out of bounds" in f["description"] or "dereference failure" in f["description"])]
+            if own and len(own) == len(real):
+                inconclusive.append(f"{h.name}: the harness itself misbehaves ({own[0]['description']} at {own[0]['location']})")
+                continue
             rep = replay_mod.replay_counterexample(r, pid, ctx)
             if rep.reproduced:
                 k = replay_mod.match_known(known, pid, h, r, rep)
